@@ -129,10 +129,10 @@ Definition table_truth (t : table) (a : atom) (i : nat) : tv :=
 (* the documentation: OverflowError mapped, an unreachable key is an empty value,
    a bare keyword is never a pattern *)
 Definition documented : variants :=
-  {| overflow_escapes := false; lookup_escapes := false; bare_keyword_atom := false |}.
+  {| overflow_escapes := false; lookup_escapes := false; bare_keyword_atom := false; eval_depth_limit := 0 |}.
 (* what the code does now *)
 Definition current : variants :=
-  {| overflow_escapes := false; lookup_escapes := true; bare_keyword_atom := true |}.
+  {| overflow_escapes := false; lookup_escapes := true; bare_keyword_atom := true; eval_depth_limit := 900 |}.
 
 Definition run_model (c : case) : obs :=
   let comp := table_compile (c_table c) in
@@ -150,6 +150,13 @@ Definition wanted (c : case) : list val :=
   | Er _ => repeat (VExc (lit "ValueError")) (c_envs c)
   end.
 
+(* every call raised RecursionError (finding D26: evaluation recurses once per nesting level) *)
+Definition all_recursion_error (l : list val) : bool :=
+  match l with
+  | [] => false
+  | _ => forallb (fun v => match v with VExc t => str_eqb t (lit "RecursionError") | VB _ => false end) l
+  end.
+
 (* failed clauses of the property for observation o (empty list = holds) *)
 Definition holds (c : case) (o : obs) : list string :=
   (match c_expected c with
@@ -161,7 +168,8 @@ Definition holds (c : case) (o : obs) : list string :=
    end) ++
   (if vals_eqb (fst o) (wanted c) then []
    else match reference c with
-        | Ok _ => ["value_equals_documented_semantics"%string]
+        | Ok _ => if all_recursion_error (fst o) then ["legal_expression_raised_RecursionError"%string]
+                  else ["value_equals_documented_semantics"%string]
         | Er _ => ["rejected_with_ValueError"%string]
         end) ++
   (if vals_eqb (snd o) (fst o) then [] else ["cache_transparent"%string]).
@@ -188,6 +196,10 @@ Definition validb (c : case) : bool :=
   res_eqb (parse (c_var c) (table_compile (c_table c)) (c_str c)) (reference c) &&
   match reference c with Er (Raise _) => false | _ => true end &&
   (negb (lookup_escapes (c_var c)) || table_clean (c_table c)) &&
+  match reference c with
+  | Ok e => (eval_depth_limit (c_var c) =? 0)%nat || (depth e <=? eval_depth_limit (c_var c))%nat
+  | Er _ => true
+  end &&
   match c_expected c with
   | Some e => match reference c with Ok e' => expr_eqb e e' | Er _ => false end
   | None => true
@@ -196,9 +208,9 @@ Definition validb (c : case) : bool :=
 (* ---------- decoding ---------- *)
 Definition as_variants (x : sx) : option variants :=
   match x with
-  | L [a; b; c] =>
-      obind (asBool a) (fun a => obind (asBool b) (fun b => obind (asBool c) (fun c =>
-      Some {| overflow_escapes := a; lookup_escapes := b; bare_keyword_atom := c |})))
+  | L [a; b; c; n] =>
+      obind (asBool a) (fun a => obind (asBool b) (fun b => obind (asBool c) (fun c => obind (asNat n) (fun n =>
+      Some {| overflow_escapes := a; lookup_escapes := b; bare_keyword_atom := c; eval_depth_limit := n |}))))
   | _ => None
   end.
 Definition as_row (x : sx) : option (atom * (cres * list tv)) :=
